@@ -447,11 +447,11 @@ static void case_unknown_method(Rng& rng, uint64_t index)
 static void setup()
 {
 	add_generator("recorded_witnesses", sizeof WITS / sizeof WITS[0], case_witness);
-	add_generator("closed_form_1d", ctx().count(14400, 720000), case_closed_1d);
-	add_generator("narrow_intervals_1d", ctx().count(4800, 240000), case_narrow_1d);
-	add_generator("estimator_regular_adaptive_simpson", ctx().count(6000, 300000), case_regular_1d);
-	add_generator("nested_2d_3d", ctx().count(960, 48000), case_nested, 600.0);
-	add_generator("spherical_overload", ctx().count(480, 24000), case_spherical, 600.0);
-	add_generator("unknown_method_names", ctx().count(30, 120), case_unknown_method);
+	add_generator("closed_form_1d", ctx().count(14400, 2160000), case_closed_1d);
+	add_generator("narrow_intervals_1d", ctx().count(4800, 720000), case_narrow_1d);
+	add_generator("estimator_regular_adaptive_simpson", ctx().count(6000, 900000), case_regular_1d);
+	add_generator("nested_2d_3d", ctx().count(960, 144000), case_nested, 600.0);
+	add_generator("spherical_overload", ctx().count(480, 72000), case_spherical, 600.0);
+	add_generator("unknown_method_names", ctx().count(30, 360), case_unknown_method);
 }
 VERIF_MAIN("C13", setup)
